@@ -34,8 +34,9 @@ _REAL_READLINK = _real_os.readlink
 # Paths of the interpreter and of the system under test itself are not part of
 # the simulated world: the import system, linecache and ply's self-inspection
 # read them. They pass through to the real file system, uncounted.
+REPO = (_real_os.environ.get("VERIF_REPO") or "/repo").rstrip("/")
 PASSTHROUGH = tuple(
-    sorted({"/repo/", "/venv/", "/usr/", "/opt/", "/lib/", "/lib64/", "/etc/", "/proc/", "/dev/", _sys.prefix.rstrip("/") + "/", _sys.base_prefix.rstrip("/") + "/"})
+    sorted({REPO + "/", "/repo/", "/venv/", "/usr/", "/opt/", "/lib/", "/lib64/", "/etc/", "/proc/", "/dev/", _sys.prefix.rstrip("/") + "/", _sys.base_prefix.rstrip("/") + "/"})
 )
 
 
